@@ -42,9 +42,30 @@ def exhaustive_programs(maxlen):
     return out
 
 
+def adjacent_slices(rng, tier):
+    """leaf[a:b][c:d] (and three in a row) over a 7-row leaf: every window pair with small bounds, including second
+    windows that start inside and end beyond the first one (merged at build time by Slice.then)."""
+    k = K(1)
+    leaf = ("leaf", 1, ("it", 0), [k], [{k: i} for i in range(7)])
+    pairs = [(a, b) for a in range(0, 5) for b in list(range(a, 8)) + [None]]
+    out = []
+    for (a, b) in pairs:
+        for (c, d) in pairs:
+            out.append(("un", ("slice", c, d), ("un", ("slice", a, b), leaf)))
+    if tier == "quick":
+        out = rng.sample(out, 220)
+    for _ in range(40 if tier == "quick" else 400):
+        p = leaf
+        for (a, b) in rng.sample(pairs, 3):
+            p = ("un", ("slice", a, b), p)
+        out.append(p)
+    return out
+
+
 def make_cases(rng, tier):
     progs = []
     progs += exhaustive_programs(2 if tier == "quick" else 3)
+    progs += adjacent_slices(rng, tier)
     n = 500 if tier == "quick" else 20000
     for _ in range(n):
         p, _ = ip.gen_prog(rng, rng.choice([1, 2, 3, 4, 6, 8, 12]))
